@@ -226,17 +226,17 @@ func (x *Exec) exitNormal(s *State, rs []Val) {
 	s.comment("normal exit")
 	x.cover(s, x.entryKey+"#cover:exit")
 	checkAllocs := func() {
-	// objects of types with a type invariant allocated here must satisfy it
-	for _, a := range s.tiAllocs {
-		for _, ti := range x.w.typeInvs[a.key] {
-			env := &Env{s: s, vars: map[string]SVal{ti.v: {t: a.ref, gt: ti.gt}}, heap: s.heap, ghost: s.ghost, alloc: s.alloc, pkg: ti.pkg}
-			t, err := env.evalBool(ti.cl.Expr, ti.cl.Src)
-			if err != nil {
-				x.unsup("%v (%s)", err, ti.cl.Where)
+		// objects of types with a type invariant allocated here must satisfy it
+		for _, a := range s.tiAllocs {
+			for _, ti := range x.w.typeInvs[a.key] {
+				env := &Env{s: s, vars: map[string]SVal{ti.v: {t: a.ref, gt: ti.gt}}, heap: s.heap, ghost: s.ghost, alloc: s.alloc, pkg: ti.pkg}
+				t, err := env.evalBool(ti.cl.Expr, ti.cl.Src)
+				if err != nil {
+					x.unsup("%v (%s)", err, ti.cl.Where)
+				}
+				s.goal(x.entryKey+"#typeinv:"+ti.cl.Name(), "typeinv", ti.cl.Props(), t, ti.cl.Where, ti.cl.Src)
 			}
-			s.goal(x.entryKey+"#typeinv:"+ti.cl.Name(), "typeinv", ti.cl.Props(), t, ti.cl.Where, ti.cl.Src)
 		}
-	}
 	}
 	if c == nil {
 		checkAllocs()
